@@ -95,7 +95,8 @@ def main():
             dst = os.path.join(VERIF, 'seeded', a.seed_id)
             os.makedirs(dst, exist_ok=True)
             for f in ('patch.diff', 'demo.py', 'notes.md'):
-                if os.path.exists(os.path.join(a.src, f)):
+                if os.path.exists(os.path.join(a.src, f)) and \
+                        os.path.realpath(os.path.join(a.src, f)) != os.path.realpath(os.path.join(dst, f)):
                     shutil.copy(os.path.join(a.src, f), os.path.join(dst, f))
             with open(os.path.join(dst, 'meta.json'), 'w') as f:
                 json.dump(meta, f, indent=1)
